@@ -1,12 +1,13 @@
 import GeomV.C14.Unify
+import GeomV.C14.Flip
 import GeomV.C14.Ties
 /-!
 # C14: all clauses from ONE contract, stated for the functions regenerated from the Go source
 
 `ClipLineContract` = the segment form of the contract (`ClipLineSegsSpec`) + "every returned chain has
 at least two vertices" — exactly what the judge's chain comparison establishes per generated case.
-Under it, for simple lines / networks in general position w.r.t. a valid polygon (and the decidable
-closure hypothesis), the functions `Gen.lineString_Clip` / `Gen.multiLineString_Clip` rendered from
+Under it, for simple lines / networks in general position w.r.t. a valid polygon (the closure
+hypothesis of `C14_exact_of_segs` is now a theorem: `closureOK_of_valid`, Flip.lean), the functions `Gen.lineString_Clip` / `Gen.multiLineString_Clip` rendered from
 linestring.go / multilinestring.go return, without fault, a multi-line string `R` such that
 
 * `⋃ R = L ∩ closure(P)` (title of the property),
@@ -47,23 +48,23 @@ theorem piece_len_clip (core : ClipCore) (hk : ClipLineContract core.line) (L : 
 or on the boundary of `P`. -/
 theorem C14_vertices_of_contract (core : ClipCore) (hk : ClipLineContract core.line) (L : Lines) (arg : Operand)
     (hs : simplePaths L.paths = true) (hv : validC (toContours arg) = true)
-    (hg : gpLine L.paths (toContours arg) = true) (hc : closureOK (toContours arg) L.paths = true) :
+    (hg : gpLine L.paths (toContours arg) = true) :
     ∀ piece ∈ clip core L arg, ∀ v ∈ piece,
       onPaths L.paths v = true ∧ insideClosedC (toContours arg) v = true := by
   intro piece hp v hvp
-  apply (C14_exact_of_segs core hk.1 L arg hs hv hg hc v).1
+  apply (C14_exact_of_segs' core hk.1 L arg hs hv hg v).1
   simp only [onPaths, List.any_eq_true]
   exact ⟨piece, hp, onPath_of_mem piece v (piece_len_clip core hk L arg hs hv hg piece hp) hvp⟩
 
 /-- **C14, clause 3, from the one contract**: no piece exactly when no point of `L` lies inside or on `P`. -/
 theorem C14_empty_iff_of_contract (core : ClipCore) (hk : ClipLineContract core.line) (L : Lines) (arg : Operand)
     (hs : simplePaths L.paths = true) (hv : validC (toContours arg) = true)
-    (hg : gpLine L.paths (toContours arg) = true) (hc : closureOK (toContours arg) L.paths = true) :
+    (hg : gpLine L.paths (toContours arg) = true) :
     clip core L arg = [] ↔
       ∀ p, ¬ (onPaths L.paths p = true ∧ insideClosedC (toContours arg) p = true) := by
   constructor
   · intro he p hp
-    have := (C14_exact_of_segs core hk.1 L arg hs hv hg hc p).2 hp
+    have := (C14_exact_of_segs' core hk.1 L arg hs hv hg p).2 hp
     rw [he] at this; simp [onPaths] at this
   · intro hall
     cases hR : clip core L arg with
@@ -76,14 +77,16 @@ theorem C14_empty_iff_of_contract (core : ClipCore) (hk : ClipLineContract core.
         have hon : onPaths (clip core L arg) a = true := by
           rw [hR]
           simp [onPaths, onPath, pairs, onSeg_left]
-        exact hall a ((C14_exact_of_segs core hk.1 L arg hs hv hg hc a).1 hon)
+        exact hall a ((C14_exact_of_segs' core hk.1 L arg hs hv hg a).1 hon)
 
 /-- **C14 for the functions regenerated from the Go source** (`Gen.lineString_Clip` for a `LineString`
-receiver, `Gen.multiLineString_Clip` for a `MultiLineString`): under the one contract on the sweep the call
-returns without fault a multi-line string with all clauses of the property. -/
-theorem C14_src (core : ClipCore) (hk : ClipLineContract core.line) (L : Lines) (arg : Operand)
+receiver, `Gen.multiLineString_Clip` for a `MultiLineString`): under the one contract on the sweep as `clipLine`
+presents it (`scaledCore core`: `core.line` conjugated by the power-of-two scaling of small operands, Scale.lean)
+the call returns without fault a multi-line string with all clauses of the property.  No closure hypothesis:
+validity and general position suffice (`closureOK_of_valid`). -/
+theorem C14_src (core : ClipCore) (hk : ClipLineContract (scaledCore core).line) (L : Lines) (arg : Operand)
     (hs : simplePaths L.paths = true) (hv : validC (toContours arg) = true)
-    (hg : gpLine L.paths (toContours arg) = true) (hc : closureOK (toContours arg) L.paths = true) :
+    (hg : gpLine L.paths (toContours arg) = true) :
     ∃ R, (match L with
           | .line l => Gen.lineString_Clip core l arg
           | .multi ls => Gen.multiLineString_Clip core ls arg) = .ok R ∧
@@ -91,10 +94,10 @@ theorem C14_src (core : ClipCore) (hk : ClipLineContract core.line) (L : Lines) 
       (∀ piece ∈ R, ∀ v ∈ piece, onPaths L.paths v = true ∧ insideClosedC (toContours arg) v = true) ∧
       totalLen R = oracleLength (toContours arg) L.paths ∧
       (R = [] ↔ ∀ p, ¬ (onPaths L.paths p = true ∧ insideClosedC (toContours arg) p = true)) :=
-  ⟨clip core L arg, C14_src_clip core L arg,
-    fun p => C14_exact_of_segs core hk.1 L arg hs hv hg hc p,
-    C14_vertices_of_contract core hk L arg hs hv hg hc,
-    C14_length core hk.1 L arg hs hv hg,
-    C14_empty_iff_of_contract core hk L arg hs hv hg hc⟩
+  ⟨clip (scaledCore core) L arg, C14_src_clip core L arg,
+    fun p => C14_exact_of_segs' (scaledCore core) hk.1 L arg hs hv hg p,
+    C14_vertices_of_contract (scaledCore core) hk L arg hs hv hg,
+    C14_length (scaledCore core) hk.1 L arg hs hv hg,
+    C14_empty_iff_of_contract (scaledCore core) hk L arg hs hv hg⟩
 
 end GeomV.C14
